@@ -44,6 +44,49 @@ def opPredictSubmodel (args : List String) : String :=
     | none => "bad-op"
   | _ => "bad-op"
 
+def showList (l : Option (List Float)) : String :=
+  match l with
+  | some l => "ok " ++ " ".intercalate (l.map showFloat)
+  | none => "ok err"
+
+def parseKey : String → Option Gen.ModelKey
+  | "hdd_tidd_cdd_smooth" => some .hdd_tidd_cdd_smooth
+  | "hdd_tidd_cdd" => some .hdd_tidd_cdd
+  | "c_hdd_tidd_smooth" => some .c_hdd_tidd_smooth
+  | "c_hdd_tidd" => some .c_hdd_tidd
+  | "tidd" => some .tidd
+  | _ => none
+
+/-- `full_model <7 floats> <T_min> <T_max> <T...>`: the generated kernel on a raw 7-vector -/
+def opFullModel (args : List String) : String :=
+  match args.mapM parseFloat with
+  | some (a :: b :: c :: d :: e :: f :: g :: tmin :: tmax :: ts) =>
+    "ok " ++ " ".intercalate (ts.map fun t =>
+      match Gen.full_model_elem a b c d e f g [tmin, tmax] t with
+      | some v => showFloat v
+      | none => "err")
+  | _ => "bad-op"
+
+/-- `gfx <key> <T_min> <T_max> <T_min_seg> <T_max_seg> <x...>` -/
+def opGfx (args : List String) : String :=
+  match args with
+  | k :: rest =>
+    match parseKey k, rest.mapM parseFloat with
+    | some k, some (tmin :: tmax :: tmins :: tmaxs :: x) =>
+      showList (Gen.get_full_model_x k x tmin tmax tmins tmaxs)
+    | _, _ => "bad-op"
+  | _ => "bad-op"
+
+def opFix (args : List String) : String :=
+  match args.mapM parseFloat with
+  | some (tmin :: tmax :: x) => showList (Gen.fix_full_model_x x tmin tmax)
+  | _ => "bad-op"
+
+def opSmooth (args : List String) : String :=
+  match args.mapM parseFloat with
+  | some [a, b, c, d] => showList (some (Gen.get_smooth_coeffs a b c d))
+  | _ => "bad-op"
+
 def opSafeDivide (args : List String) : String :=
   match args.mapM parseFloat with
   | some [a, b, c] =>
@@ -56,12 +99,16 @@ def step (line : String) : String :=
   match words line with
   | "submodel" :: args => opPredictSubmodel args
   | "safe_divide" :: args => opSafeDivide args
+  | "full_model" :: args => opFullModel args
+  | "gfx" :: args => opGfx args
+  | "fix" :: args => opFix args
+  | "smooth" :: args => opSmooth args
   | _ => "bad-op"
 
 partial def loop (h : IO.FS.Stream) (out : IO.FS.Stream) : IO Unit := do
   let line ← h.getLine
   if line.isEmpty then return ()
-  out.putStrLn (step (line.dropRightWhile (· == '\n')))
+  out.putStrLn (step (line.trimAscii.toString))
   loop h out
 
 def main : IO Unit := do
